@@ -37,7 +37,8 @@ def floors(tier):
     q = tier == "quick"
     return {"seed.cases": 20000 if q else 600000, "seed.resolved_through_R": 8000, "seed.history.twice": 3000, "seed.history.other_first": 3000,
             "acct.docs": 15000, "acct.definitions": 30000, "acct.duplicates": 5000, "acct.written_defs_located": 20000, "label.pairs": 40000,
-            "label.pairs_equal": 5000, "label.pairs_unequal": 20000, "triples": 60000, "triples.both_link": 20000, "triples.neither": 1000}
+            "label.pairs_equal": 5000, "label.pairs_unequal": 20000, "triples": 60000, "triples.both_link": 20000, "triples.neither": 1000, "fidelity.docs": 20000, "fidelity.resolved_references": 30000,
+            "fidelity.defs_before_titlelike_text": 3000}
 
 
 def onorm(label):
@@ -141,6 +142,44 @@ def acct_case(ctx, case):
         ctx.nontrivial("acct", src)
 
 
+# ---- (2b) resolution fidelity: a resolved reference carries exactly its definition's destination and title -----------------
+MDL = {"preset": "commonmark", "options": {"store_labels": True}}
+
+
+def fidelity_case(ctx, case):
+    from vf.util import walk
+    ctx.count("evaluations")
+    ctx.current = case
+    md = W.get_md(MDL)
+    env = {}
+    try:
+        toks = md.parse(case["src"], env)
+    except Exception:
+        ctx.count("skipped.exception")
+        return
+    refs = env.get("references") or {}
+    byn = {}
+    for k, v in refs.items():
+        byn.setdefault(onorm(k), v)
+    n = 0
+    for t in walk(toks):
+        if t.type in ("link_open", "image") and isinstance(t.meta, dict) and "label" in t.meta:
+            ent = byn.get(onorm(t.meta["label"])) or byn.get(onorm(t.meta["label"].replace("ı", "i")))
+            n += 1
+            if ent is None:
+                viol(ctx, "resolved-reference-without-definition", f"{t.type} carries label {t.meta['label']!r} but no such definition is recorded: {sorted(refs)}", case)
+                return
+            url = t.attrs.get("href" if t.type == "link_open" else "src")
+            title = t.attrs.get("title", "")
+            if url != ent["href"] or title != ent["title"]:
+                viol(ctx, "resolved-reference-differs-from-definition", f"{t.type} [{t.meta['label']}] has ({url!r}, {title!r}) but its definition says ({ent['href']!r}, {ent['title']!r})", case)
+                return
+    ctx.count("fidelity.docs")
+    ctx.count("fidelity.resolved_references", n)
+    if n:
+        ctx.nontrivial("fidelity", case["src"])
+
+
 # ---- (3) label equivalence ---------------------------------------------------------------------------------------------
 def label_case(ctx, case):
     ctx.count("evaluations")
@@ -230,7 +269,7 @@ def triple_case(ctx, case):
 
 
 def replay(ctx, case):
-    {"seed": seed_case, "acct": acct_case, "label": label_case, "triple": triple_case}[case["kind"]](ctx, case)
+    {"seed": seed_case, "acct": acct_case, "label": label_case, "triple": triple_case, "fidelity": fidelity_case}[case["kind"]](ctx, case)
 
 
 def gen_defs(rng, n, labels=None):
@@ -314,6 +353,37 @@ def run(ctx):
         # keep only the definitions the parser recognised as such line-exactly is the property; a title that fails to parse
         # makes the line a paragraph - then nothing is recorded for it and it is not a 'definition in the source'
         acct_case(ctx, {"kind": "acct", "src": src, "written": written, "pure": True})
+    # (2b) uses of defined labels in hostile surroundings: a failed inline-link attempt right after the label, other links around
+    tails = ["", "", " x", "(see \"Intro\" above)", "(b (c) d) e", "(/x 'stale'", "(/y \"t\" z)", "(<u v> 'q' r)", "[]", "[ ]", "(", "()", "(/ok \"good\")", ": c", "[other]", "(\n'nl' x)"]
+    for k in range(ctx.scale(40000, 1000000)):
+        labs = [rng.choice(LABELS) for _ in range(rng.randint(1, 3))]
+        defs = []
+        for i, l in enumerate(labs):
+            shape = rng.random()
+            d = rng.choice(["/u%d" % i, "<u %d>" % i, "http://x.y/%d" % i])
+            if shape < 0.25:
+                # destination, trailing blanks, then a line that STARTS with a complete title token but goes on: the definition has
+                # no title and the next line is paragraph text
+                follow = rng.choice(['"title" ok', "'quoted' word", "(see above) for details", '"t"x'])
+                defs.append("[%s]: %s%s\n%s" % (l, d, rng.choice(["  ", " ", "", "\t"]), follow))
+            else:
+                defs.append(f"[{l}]: {d}{rng.choice(TITLES)}")
+        uses = " ".join(rng.choice(["[%s]", "![%s]", "[t][%s]", "[%s][]"]) % l + rng.choice(tails) for l in labs + [rng.choice(labs)])
+        src = ("\n\n".join(defs) + "\n\n" + uses + "\n") if rng.random() < 0.5 else (uses + "\n\n" + "\n\n".join(defs) + "\n")
+        fidelity_case(ctx, {"kind": "fidelity", "src": src})
+        if any("ok" in x or "word" in x or "details" in x or '"t"x' in x for x in defs):
+            # those definitions must be recorded although a title-looking line follows
+            md = W.get_md(MD)
+            env = {}
+            try:
+                md.parse(src, env)
+            except Exception:
+                continue
+            ctx.count("fidelity.defs_before_titlelike_text")
+            got = {onorm(k) for k in (env.get("references") or {})}
+            want = {onorm(l) for l in labs}
+            if not want <= got and not {onorm(l.replace("ı", "i")) for l in labs} <= {x.replace("ı", "i") for x in got}:
+                viol(ctx, "wellformed-definition-not-recognised", f"definitions for {sorted(want - got)} are not recorded (a title-like line with trailing text follows the destination)", {"kind": "fidelity", "src": src})
     # (3)
     classes = {}
     for l in LABELS:
